@@ -232,6 +232,7 @@ func (g *Gen) Step() bool {
 			choice{g.wt("badreq"), func() { g.opBadReq(conns) }},
 			choice{g.wt("trigburst"), func() { g.opTrigBurst(conns) }},
 			choice{g.wt("refburst"), func() { g.opRefBurst(conns) }},
+			choice{g.wt("throtburst"), func() { g.opThrottleBurst(conns) }},
 			choice{g.wt("hostilereq"), func() { g.opHostileReq(conns) }},
 		)
 	}
@@ -769,6 +770,39 @@ func (g *Gen) opTrigBurst(conns []*Client) {
 	if g.wt("call") > 0 && rapid.Bool().Draw(g.t, "callafter") {
 		// a call right after the trigger must not be decided on the cached verdict
 		g.w.Exec(Op{K: "creq", C: c.Idx, ID: g.nextID(c), M: "call." + rid + "." + g.sample("method", g.methods())})
+	}
+}
+
+// opThrottleBurst: a system reset whose access re-checks queue up in the reset
+// throttle, followed at once by requests on the resources whose re-check is
+// waiting (they wait for the same verdict) and unsubscribes of them.
+func (g *Gen) opThrottleBurst(conns []*Client) {
+	c := g.conn(conns)
+	var rids []string
+	for rid, n := range c.Ref.Direct {
+		if n > 0 {
+			rids = append(rids, rid)
+		}
+	}
+	sort.Strings(rids)
+	payload := g.sample("tbreset", []string{`{"access":[">"]}`, `{"access":["t.>"]}`, `{"resources":[">"],"access":[">"]}`})
+	g.w.Exec(Op{K: "sysreset", P: payload})
+	if len(rids) == 0 {
+		return
+	}
+	n := rapid.IntRange(1, 4).Draw(g.t, "tbn")
+	for i := 0; i < n; i++ {
+		rid := g.sample("tbrid", rids)
+		switch g.sample("tbaction", []string{"call", "call", "unsubscribe", "unsubscribe", "get", "subscribe"}) {
+		case "call":
+			g.w.Exec(Op{K: "creq", C: c.Idx, ID: g.nextID(c), M: "call." + rid + "." + g.sample("method", g.methods())})
+		case "unsubscribe":
+			g.w.Exec(Op{K: "creq", C: c.Idx, ID: g.nextID(c), M: "unsubscribe." + rid})
+		case "get":
+			g.w.Exec(Op{K: "creq", C: c.Idx, ID: g.nextID(c), M: "get." + rid})
+		default:
+			g.w.Exec(Op{K: "creq", C: c.Idx, ID: g.nextID(c), M: "subscribe." + rid})
+		}
 	}
 }
 
